@@ -7,6 +7,7 @@ and API level with two ABT_pool_user_def pools + one legacy ABT_pool_def pool (h
 import collections, json
 from vlib import common as C
 from vlib import diff as D
+from vlib import t1 as skel
 
 
 def _retry(f, *a):
@@ -25,6 +26,9 @@ ASSUMPTIONS = [
     "ABT_UNIT_NULL is a parameter of the model (0x7 in this build, generated); ABTI_UNIT_HASH_TABLE_SIZE_EXP is generated; sizeof(uintptr_t) = 8",
     "interleaving model of unit.c is sequentially consistent at the granularity of single loads/stores of cell fields; the relaxed/plain accesses of `unit`/`p_thread` are single steps (C11 data-race freedom of the plain `p_thread` access rests on the contract that a get(u) runs only after map(u) completed)",
     "client contract of the table is a hypothesis of unitmap_lockfree_get / unitmap_refines_map: no get(u) concurrent with unmap(u) or with the map(u) that creates it (guards of Model.UnitMap.Step)",
+    "order of user callbacks vs. table operations: Model.Assoc logs, for every create_unit / free_unit event, how many table elements hold the handle at that instant; theorem assoc_handle_unmapped_when_recyclable; the API harness records the same count white-box inside its callbacks (read-only walk of p_global->unit_to_thread_entires) and the oracle requires it to equal the number of OTHER outstanding units with that handle (0 unless pools share a handle)",
+    "T1: token-level skeletons of unit.c, the abti_unit.h inline functions and the thread.c/task.c/self.c/stream.c/ythread.c/pool.c callers are compared with the committed ones (skel/expected); a difference breaks the model=code obligation and triggers the enlarged search",
+    "harness/xs_recycle.c (two execution streams, LIFO handle recycling across them) is a native search aid only: real preemptive interleavings are not enumerated",
     "association model treats each of init_pool / set_associated_pool / unset_associated_pool as atomic (a work unit's association is changed only by the stream that owns it at that moment: it is not in any pool while pushed/migrated)",
     "a work unit whose unit is ABT_UNIT_NULL (after unset) is outside the contract of set_associated_pool (Model.Assoc returns the build's actual behaviour but the theorems assume it does not happen)",
     "'work units execute exactly once whatever order a user pool or scheduler hands them out in' is checked dynamically only (entered/finished counters under a PRNG hand-out order, one execution stream); no theorem",
@@ -32,6 +36,27 @@ ASSUMPTIONS = [
     "API harness runs on the `plain` build (ASan rejects the fcontext switch at ULT exit); the white-box harness runs under ASan+UBSan",
     "T2 stress op (pthreads mapping/looking up/unmapping colliding units concurrently) is a sanity run of the real code, not an exploration of interleavings; all interleavings are covered by the proof on the model only",
 ]
+
+
+T1_FUNCS = [("unit.c", f) for f in [
+    "unit_get_hash_index", "unit_init_hash_table", "unit_finalize_hash_table", "unit_map_thread", "unit_unmap_thread",
+    "unit_get_thread_from_user_defined_unit", "ABTI_unit_init_hash_table", "ABTI_unit_finalize_hash_table",
+    "ABTI_unit_map_thread", "ABTI_unit_unmap_thread", "ABTI_unit_get_thread_from_user_defined_unit",
+    "ABT_unit_get_thread", "ABT_unit_set_associated_pool",
+    # abti_unit.h (inline; taken from the unit.c translation unit)
+    "ABTI_unit_is_builtin", "ABTI_unit_get_builtin_unit", "ABTI_unit_init_builtin",
+    "ABTI_unit_get_thread_from_builtin_unit", "ABTI_unit_get_thread", "ABTI_unit_set_associated_pool",
+    "ABTI_thread_init_pool", "ABTI_thread_set_associated_pool", "ABTI_thread_unset_associated_pool"]] + [
+    # callers that choose between them
+    ("thread.c", "ABT_thread_set_associated_pool"), ("thread.c", "ABT_thread_get_unit"), ("thread.c", "thread_revive"),
+    ("thread.c", "thread_free"), ("thread.c", "ythread_create"), ("thread.c", "ABTI_thread_handle_request_migrate"),
+    ("task.c", "task_create"), ("self.c", "ABT_self_set_associated_pool"), ("self.c", "ABT_self_schedule"),
+    ("stream.c", "ABT_xstream_run_unit"), ("ythread.c", "ABTI_ythread_callback_orphan"),
+    ("ythread.c", "ABTI_ythread_schedule"), ("ythread.c", "ABTI_thread_handle_request"),
+    ("pool/pool.c", "ABT_pool_push"), ("pool/pool.c", "pool_push_thread_ex"), ("pool/pool.c", "pool_push_threads_ex"),
+    ("pool/pool.c", "pool_pop_wrapper"), ("pool/pool.c", "pool_pop_wait_wrapper"), ("pool/pool.c", "pool_pop_many_wrapper"),
+    ("pool/pool.c", "pool_create_unit_wrapper"), ("pool/pool.c", "pool_free_unit_wrapper"),
+    ("pool/pool.c", "ABTI_pool_pop_timedwait")]
 
 
 def hidx(v, exp=8):
@@ -373,11 +398,21 @@ def oracle_userpool(lines, out):
                 others = [k for k, t in live.items() if k[1] == e[3] and t != e[2]]
                 if others:
                     return "line %d `%s`: harness handed %s to two work units" % (i, l, e[3])
+                shared = sum(1 for k in live if k[1] == e[3])
+                if len(e) > 4 and e[4] != "m%d" % shared:
+                    return ("line %d `%s`: when create_unit(%s) returned %s the runtime's unit table held it %s time(s), "
+                            "%d other unit(s) with that handle are outstanding: mapped before create_unit returned it"
+                            % (i, l, e[1], e[3], e[4][1:], shared))
                 live[(e[1], e[3])] = e[2]
             elif e[0] == "free":
                 if (e[1], e[2]) not in live:
                     return "line %d `%s`: free_unit(%s,%s) but that unit is not live in that pool" % (i, l, e[1], e[2])
                 del live[(e[1], e[2])]
+                shared = sum(1 for k in live if k[1] == e[2])
+                if len(e) > 3 and e[3] != "m%d" % shared:
+                    return ("line %d `%s`: free_unit(%s,%s) was called while the runtime's unit table still held the "
+                            "handle %s time(s) (%d other unit(s) with that handle are outstanding): the pool may recycle "
+                            "a handle that is still mapped" % (i, l, e[1], e[2], e[3][1:], shared))
             elif e[0] == "push":
                 if (e[1], e[2]) not in live:
                     return "line %d `%s`: unit %s pushed to %s but it is not a live unit of that pool" % (i, l, e[2], e[1])
@@ -491,7 +526,23 @@ def run_diff(res, what, model, exe, gen, oracle, rounds, nops, rng, hist, sample
     return total, True
 
 
+def xs_recycle(res, tier):
+    """native search aid: two execution streams, handles recycled LIFO across them (harness/xs_recycle.c)"""
+    exe = C.cc_harness("xs_recycle", ["xs_recycle.c"], "plain")
+    iters = 600 if tier == "quick" else 30000
+    rc, out = C.sh([exe, str(iters)], timeout=300)
+    last = out.strip().split("\n")[-1] if out.strip() else ""
+    res.add_cov(cross_stream_recycle=last[:200])
+    if rc != 0:
+        res.violation("cross-stream handle recycling (create on one stream while another frees): " + last[:400],
+                      {"scenario": "xs_recycle", "iterations": iters, "cmd": "%s %d" % (exe, iters), "output": out[-1500:]})
+
+
 def run(res, tier, broken):
+    n, tb = skel.check(T1_FUNCS)
+    res.add_cov(t1_functions=n, t1_broken=len(tb))
+    for b in tb:
+        broken.append({"kind": "T1-skeleton", **b})
     exe_wb = C.cc_harness("wb_unitmap", ["wb_unitmap.c"], "san", extra="-lpthread")
     exe_api = C.cc_harness("api_userpool", ["api_userpool.c"], "plain")
     rng = C.Rng(res.seed * 7919 + 14)
@@ -508,12 +559,19 @@ def run(res, tier, broken):
     if ok:
         t2, ok = run_diff(res, "T2 user pools (harness/api_userpool.c vs Model.Assoc)", "userpool", exe_api,
                           gen_userpool, oracle_userpool, r2, n2, rng, h2, "userpool_ops")
+    if ok:
+        xs_recycle(res, tier)
     res.add_cov(programs=r1 + r2, disagreements_checked=t1 + t2, unitmap_ops=t1, userpool_ops=t2,
                 unitmap_op_histogram=dict(h1), userpool_op_histogram=dict(h2))
 
 
 def replay(res, path):
     rep = json.load(open(path))
+    if rep.get("scenario") == "xs_recycle":
+        exe = C.cc_harness("xs_recycle", ["xs_recycle.c"], "plain")
+        rc, out = C.sh([exe, str(rep.get("iterations", 600))], timeout=300)
+        print(out.strip()[-600:])
+        return 1 if rc else 0
     if "ops" in rep:
         model = rep.get("model", "unitmap")
         if model == "unitmap":
